@@ -4,7 +4,10 @@ The non-interactive mode needs to be properly reimplemented in the trace
 function.
 '''
 import asyncio
+from contextlib import asynccontextmanager
 from typing import TYPE_CHECKING, Any, AsyncIterator
+
+from transitions import MachineError
 
 from nextline.events import OnStartPrompt
 from nextline.plugin.spec import Context, hookimpl
@@ -51,15 +54,33 @@ class Continuous:
         await self.close()
 
     async def run_and_continue(self) -> None:
-        await self._pubsub_enabled.publish(True)
-        self._nextline.register(plugin=Continue(pubsub_enabled=self._pubsub_enabled))
-        await self._nextline.run()
+        async with self._enable():
+            await self._nextline.run()
 
     async def run_continue_and_wait(self, started: asyncio.Event) -> None:
+        async with self._enable():
+            async with self._nextline.run_session():
+                started.set()
+
+    @asynccontextmanager
+    async def _enable(self) -> AsyncIterator[None]:
+        '''Turn on the non-interactive mode; undo it if the run is refused.'''
+        try:
+            was_enabled = self.enabled
+        except LookupError:
+            was_enabled = False
         await self._pubsub_enabled.publish(True)
-        self._nextline.register(plugin=Continue(pubsub_enabled=self._pubsub_enabled))
-        async with self._nextline.run_session():
-            started.set()
+        plugin = Continue(pubsub_enabled=self._pubsub_enabled)
+        self._nextline.register(plugin=plugin)
+        try:
+            yield
+        except MachineError:
+            # The run didn't start. Continue.on_finished() won't be called.
+            self._nextline.unregister(plugin=plugin)
+            if not was_enabled:
+                # No other run is in progress in the non-interactive mode.
+                await self._pubsub_enabled.publish(False)
+            raise
 
     @property
     def enabled(self) -> bool:
